@@ -37,6 +37,7 @@ void
 nni_listener_destroy(nni_listener *l)
 {
 	// NB: both these will have already been stopped.
+	NNI_VERIF_TRACE("listener", l, "destroy", NULL);
 	nni_aio_fini(&l->l_acc_aio);
 	nni_aio_fini(&l->l_tmo_aio);
 
@@ -251,6 +252,9 @@ nni_listener_init(nni_listener *l, nni_sock *s, nni_sp_tran *tran)
 
 	if (rv == 0) {
 		listener_register_stats(l);
+		NNI_VERIF_TRACE("listener", l, "create",
+		    "\"sock\":\"%lx\",\"id\":%u", (unsigned long) (uintptr_t) s,
+		    (unsigned) l->l_id);
 	}
 
 	return (rv);
@@ -328,6 +332,9 @@ nni_listener_find(nni_listener **lp, uint32_t id)
 	if ((l = nni_id_get(&listeners, id)) != NULL) {
 		l->l_ref++;
 		*lp = l;
+	} else {
+		NNI_VERIF_TRACE("listener", l, "find", "\"id\":%u,\"rv\":%d",
+		    (unsigned) id, (int) NNG_ENOENT);
 	}
 	nni_mtx_unlock(&listeners_lk);
 	return (l == NULL ? NNG_ENOENT : 0);
@@ -374,6 +381,7 @@ nni_listener_close(nni_listener *l)
 	}
 	l->l_closed = true;
 	nni_id_remove(&listeners, l->l_id);
+	NNI_VERIF_TRACE("listener", l, "closed", NULL);
 	nni_mtx_unlock(&listeners_lk);
 
 	nni_listener_shutdown(l);
@@ -399,6 +407,8 @@ listener_accept_cb(void *arg)
 	nni_aio      *aio = &l->l_acc_aio;
 	int           rv;
 
+	NNI_VERIF_TRACE(
+	    "listener", l, "accept_cb", "\"rv\":%d", (int) nni_aio_result(aio));
 	switch ((rv = nni_aio_result(aio))) {
 	case 0:
 #ifdef NNG_ENABLE_STATS
@@ -443,6 +453,7 @@ static void
 listener_accept_start(nni_listener *l)
 {
 	// Call with the listener lock held.
+	NNI_VERIF_TRACE("listener", l, "accept", NULL);
 	l->l_ops.l_accept(l->l_data, &l->l_acc_aio);
 }
 
